@@ -26,6 +26,7 @@ EXPLANATION = (
     "breaks; a worker sends back any BaseException of the task and exits when it cannot fetch a call item. Boundedness in "
     "time and OS delivery of sentinel readiness are NOT decided."
     ' backend.submit, which runs under the dispatch lock, never waits for the executor (no configure/shutdown/terminate/join); every early return of the completion callback is a sanctioned one.'
+    ' On submit the missing workers are spawned BEFORE the manager thread is woken, so that its next wait watches their sentinels (C10.SENTINELS-FRESH, defect D-L2 repaired).'
 )
 ASSUMPTIONS = [
     "multiprocessing.connection.wait returns when any given connection or process sentinel is ready; a dead process's sentinel is ready",
